@@ -111,6 +111,30 @@ func execOp(p *prog, t []string) (outcome string, res []string) {
 		res = append(res, strconv.Itoa(b2i(v(t[1]).IsZero())))
 	case "IsInf":
 		res = append(res, strconv.Itoa(b2i(v(t[1]).IsInf())))
+	case "Add":
+		v(t[1]).Add(v(t[2]), v(t[3]))
+	case "Sub":
+		v(t[1]).Sub(v(t[2]), v(t[3]))
+	case "Mul":
+		v(t[1]).Mul(v(t[2]), v(t[3]))
+	case "Quo":
+		v(t[1]).Quo(v(t[2]), v(t[3]))
+	case "FMA":
+		v(t[1]).FMA(v(t[2]), v(t[3]), v(t[4]))
+	case "Set":
+		v(t[1]).Set(v(t[2]))
+	case "Neg":
+		v(t[1]).Neg(v(t[2]))
+	case "Abs":
+		v(t[1]).Abs(v(t[2]))
+	case "Copy":
+		v(t[1]).Copy(v(t[2]))
+	case "SetPrec":
+		v(t[1]).SetPrec(uint(atou(t[2])))
+	case "SetMode":
+		v(t[1]).SetMode(decimal.RoundingMode(atoi(t[2])))
+	case "SetInf":
+		v(t[1]).SetInf(t[2] == "1")
 	default:
 		panic("unknown op " + t[0])
 	}
